@@ -96,7 +96,8 @@ def main():
         for r in rows:
             c = r.get('checks', {}).get(r['property'], {})
             others = [k for k, v in r.get('checks', {}).items() if k != r['property'] and v.get('exit') == 1]
-            f.write(f"| {r['id']} | {r['property']} | {'yes' if r.get('detected') else 'NO'}{(' (also ' + ','.join(others) + ')') if others else ''} | "
+            neutral = r.get('demo_patched_exit') == 0 and not r.get('detected')
+            f.write(f"| {r['id']} | {r['property']} | {'yes' if r.get('detected') else ('n/a: neutralised by a later fix (its own demonstration passes)' if neutral else 'NO')}{(' (also ' + ','.join(others) + ')') if others else ''} | "
                     f"{'; '.join(c.get('signatures', [])[:3]) or '-'} | {r.get('needs', '')[:200].replace('|', '/')} |\n")
     print('written seeded/INDEX.md')
 
